@@ -71,7 +71,7 @@ def make_chain(rng, feature_names, log):
       names.append(newname)
       descr.append(f'derive:{newname}=idx*{mult}+{j + 1}')
     elif kind == 1:
-      cand = [n for n in names if n != 'idx' and not n.startswith('bytes')]
+      cand = [n for n in names if n != 'idx' and not n.startswith(('bytes', 's5', 'u3'))]
       if not cand:
         continue
       tgt = cand[rng.randint(len(cand))]
@@ -128,6 +128,8 @@ def install_contracts(ctx, cd):
 
 
 def is_zero(a):
+  if a.dtype.kind in 'SU':
+    return bool(np.all(a == a.dtype.type()))      # the all-NUL empty string np.zeros gives
   if a.dtype == object:
     return all(v == 0 or v == b'' or v is None for v in a.ravel().tolist())
   return not np.any(a)
@@ -198,8 +200,22 @@ def check_point(ctx, fedjax, cd, rng, n, b, k, ContractBroken):
 
   # ---- padded_batch
   log.clear()
-  r = ctx.call('ClientDataset.padded_batch',
-               lambda: [list(ds.padded_batch(batch_size=b, num_batch_size_buckets=k)) for _ in range(2)],
+  # three documented invocation forms: keyword arguments, an hparams object, an hparams object overridden by keywords
+  style = int(rng.randint(3))
+  wit['invocation'] = ['kwargs', 'hparams', 'hparams+override'][style]
+  ctx.count('invocation:' + wit['invocation'])
+
+  def padded_view():
+    if style == 0:
+      return ds.padded_batch(batch_size=b, num_batch_size_buckets=k)
+    if style == 1:
+      return ds.padded_batch(cd.PaddedBatchHParams(batch_size=b, num_batch_size_buckets=k))
+    small = max(1, b // 4)
+    if rng.rand() < 0.5:
+      return ds.padded_batch(cd.PaddedBatchHParams(batch_size=small, num_batch_size_buckets=k), batch_size=b)
+    return ds.padded_batch(cd.PaddedBatchHParams(batch_size=b + 5, num_batch_size_buckets=1), batch_size=b, num_batch_size_buckets=k)
+
+  r = ctx.call('ClientDataset.padded_batch', lambda: [list(padded_view()) for _ in range(2)],
                expect=(ContractBroken,), witness=wit)
   if isinstance(getattr(r, 'exc', None), ContractBroken):
     ctx.violation('bucket/contract', f'icontract postcondition failed: {str(r.exc)[:300]}', wit)
